@@ -1088,7 +1088,7 @@ def run(ctx):
                 'group/description in any key order, 0-4 injected errors of 9 kinds; non-trivial = a module that is registered '
                 'with at least one configured parameter entry, or rejected with an injected error')
     rng = ctx.rng
-    n = ctx.budget(450, 12000)
+    n = ctx.budget(450, 4500)
     shrunk = 0
     idx = 0
     cases = []
